@@ -32,6 +32,9 @@ pub enum Op {
 	/// A issues an invoice into acct1 (dest_acct_name) while another account may be active; B pays
 	InvoiceIntoA1,
 	SelfSendA0A1,
+	/// A's default account pays B with minimum_confirmations = 0 and use_all: spends whatever it
+	/// holds, including still-unconfirmed received or change outputs
+	SendA0BZeroConf,
 	SwitchA,
 	RefreshA,
 	RefreshB,
@@ -247,6 +250,9 @@ impl Model for M {
 				Op::InvoiceBA0,
 				Op::InvoiceIntoA1,
 				Op::SelfSendA0A1,
+				// Op::SendA0BZeroConf is used by the directed histories only (see run): reserving a
+				// never-confirmed output is the root of a recorded finding (C05), and the BFS would
+				// re-derive its consequences in every branch
 				Op::SwitchA,
 				Op::RefreshA,
 				Op::RefreshB,
@@ -282,6 +288,30 @@ impl Model for M {
 			Op::SendA0B { use_all, change } => {
 				w.w("A").set_account("default").unwrap();
 				out.label = self.send(w, "A", None, "B", 7 * G, *use_all, *change);
+				w.w("A").set_account(&active).unwrap();
+				touched_a = Some("m/0/0");
+			}
+			Op::SendA0BZeroConf => {
+				w.w("A").set_account("default").unwrap();
+				let a = w.w("A");
+				let b = w.w("B");
+				let r = (|| -> Result<String, crate::libwallet::Error> {
+					let mut args = default_args(9 * G);
+					args.minimum_confirmations = 0;
+					args.selection_strategy_is_use_all = true;
+					let s1 = a.init_send(args)?;
+					a.lock(&s1)?;
+					let s2 = b.receive(&s1, None)?;
+					let s3 = a.finalize(&s2)?;
+					Ok(match a.post(s3.tx_or_err()?) {
+						Ok(()) => "ok".into(),
+						Err(_) => "post-refused".into(),
+					})
+				})();
+				out.label = match r {
+					Ok(l) => l,
+					Err(e) => err_label(&e),
+				};
 				w.w("A").set_account(&active).unwrap();
 				touched_a = Some("m/0/0");
 			}
@@ -504,6 +534,19 @@ pub fn replay(payload: &Value) -> i32 {
 	match run_path(&m, &format!("{}/c04-replay", root), &path) {
 		Ok(p) => {
 			println!("base {} path {:?}\nproblems at last step: {:?}", base, path, p);
+			if std::env::var("GWV_DUMP").is_ok() {
+				let w = World::open(&format!("{}/c04-replay", root));
+				println!("tip {}", w.node.height());
+				for name in ["A", "B"].iter() {
+					let wal = w.w(name);
+					for o in wal.outputs() {
+						println!("{} out {} root {} value {} status {:?} height {} cb {} log {:?}", name, o.key_id.to_bip_32_string(), o.root_key_id.to_bip_32_string(), o.value, o.status, o.height, o.is_coinbase, o.tx_log_entry);
+					}
+					for t in wal.txs() {
+						println!("{} tx {} parent {} {:?} confirmed {} credited {} debited {} slate {:?}", name, t.id, t.parent_key_id.to_bip_32_string(), t.tx_type, t.confirmed, t.amount_credited, t.amount_debited, t.tx_slate_id);
+					}
+				}
+			}
 			if p.is_empty() { 0 } else { 1 }
 		}
 		Err(e) => {
@@ -560,13 +603,21 @@ pub fn run(_args: &[String]) -> i32 {
 					dpaths.push(vec![o.clone(), mine.clone(), Op::RefreshB]);
 				}
 			}
+			// an unconfirmed output re-spent before it is mined, both transactions in one block or two
+			for o in [Op::SendBA0, Op::SendA0B { use_all: false, change: 1 }, Op::InvoiceBA0, Op::SelfSendA0A1].iter() {
+				dpaths.push(vec![o.clone(), Op::SendA0BZeroConf, Op::MineM, Op::RefreshA]);
+				dpaths.push(vec![o.clone(), Op::SendA0BZeroConf, Op::MineM, Op::MineM, Op::RefreshA, Op::RefreshB]);
+				dpaths.push(vec![o.clone(), Op::SendA0BZeroConf, Op::RefreshA, Op::MineM, Op::RefreshA]);
+			}
 			let res = par_map(&dpaths, workers(), |i, p| run_path(&m, &format!("{}/c04-{}-d{}", root, tag, i), p));
 			for (p, r) in dpaths.iter().zip(res.into_iter()) {
 				transitions += p.len();
 				match r {
 					Ok(problems) => {
+						let zc = p.iter().any(|o| *o == Op::SendA0BZeroConf);
 						for (k, v) in problems {
-							rep.add_finding(Finding { key: format!("C04/{}", k), what: format!("{} — after {:?} (base {})", v, p, base), replay: json!({"kind": format!("base{}", base), "path": p}) });
+							let key = if zc { format!("C04/{}/after-zero-conf-spend", k) } else { format!("C04/{}", k) };
+							rep.add_finding(Finding { key, what: format!("{} — after {:?} (base {})", v, p, base), replay: json!({"kind": format!("base{}", base), "path": p}) });
 						}
 					}
 					Err(e) => mach = Some(format!("directed path {:?}: {}", p, e)),
